@@ -12,9 +12,9 @@ pub const DEF: PropDef = PropDef {
 Sources come from a pool built to share and then mutate: bit-strings held in variables, on the stack and as the open input that are appended to / inverted / sliced / emitted / packed, vector push, map insert/remove, variable stores, let, definitions and redefinitions, late words resolved on one copy only, recording on one copy only, failing sources, tagged values and containers left on the stack and then tagged / pushed / inserted on one copy, plus control-flow programs from the C01 generator. \
 Oracle 1 (isolation): before each operation the rendering of every live state is held (complete dump by content, variables, pending stdout); after an operation on state i every other state must render byte-identically. \
 Oracle 2 (determinism): every clone first follows its original: each operation later applied to the original is queued for the clone together with the original's result and rendering, and is applied to the clone at a generated later time, interleaved with other activity; result, dump, variables and stdout must match at every position. Clones of clones follow the same way. \
-A separate 1/12 of the cases loads the 2D canvas plugin, whose host object is shared between clones (reported under the known finding). \
+Oracle 3 (clone-free control): at the end one state's whole lineage of operations is replayed on an interpreter that was never cloned; both must render identically (taking a snapshot must not change what the original computes). Operations include compile-only and run-pending, so clones are taken while compiled code is pending. A separate 1/12 of the cases loads the 2D canvas plugin, whose host object is shared between clones (reported under the known finding). \
 Non-trivial = a state is mutated while a clone of it is alive and the mutation involves a bit-string / vector / map / variable reachable from both; distinct = hash of the operation list",
-    assumptions: &["the non-deterministic / external words are stubbed (the quantifier excludes them)", "rendering is by content: bit-strings as bit sequences, not backing buffers"],
+    assumptions: &["the non-deterministic / external words are stubbed (the quantifier excludes them)", "the pool has no word whose argument is an allocation size (int! / uint! widths): in a shifted stack any integer left by a generated program would become the width", "rendering is by content: bit-strings as bit sequences, not backing buffers"],
     max_len: 900,
     quick_cases: 40_000,
     thorough_cases: 150_000,
@@ -40,11 +40,11 @@ const POOL: [&str; 80] = [
     "4 bits drop 9 bits close-bitstr",
     "b0 open-bitstr 12 bits close-bitstr",
     "|f| swap bitstr-append",
-    "5 4 uint! swap bitstr-append",
+    "|5| swap bitstr-append",
     "bitstr>hex",
     "dup bitstr-not",
     "12 bits close-bitstr",
-    "5 4 uint! swap bitstr-append bitstr>hex",
+    "|5| swap bitstr-append bitstr>hex",
     "|ff f| open-bitstr 6 bits close-bitstr",
     "b1 b0 bitstr-append ! b0",
     "b0 b1 bitstr-append ! b1",
@@ -60,10 +60,10 @@ const POOL: [&str; 80] = [
     "|dd| swap bitstr-append open-bitstr offset",
     "remain",
     "b1 emit",
-    "3 uint! emit",
+    "u8! emit",
     "[ b0 \"x\" 65 ] >bitstr ! b0",
     "b0 b1 bitstr-xor ! b1",
-    "5 4 uint! swap bitstr-append bitstr>hex",
+    "|5| swap bitstr-append bitstr>hex",
     "12 bits",
     "3 v0 push ! v0",
     "v0 reverse ! v0",
@@ -121,6 +121,10 @@ enum Op {
     CompileStep(String, usize, usize),
     SetInput(Vec<u8>),
     Record(bool),
+    /// compile only: the code stays pending (a clone taken now shares it)
+    Compile(String),
+    /// run whatever is pending
+    Run,
 }
 
 struct St {
@@ -128,6 +132,8 @@ struct St {
     leader: Option<usize>, // id of the state this one follows
     id: usize,
     queue: VecDeque<(Op, String)>,
+    /// every operation applied to this state since boot (a clone inherits its original's)
+    hist: Vec<Op>,
 }
 
 fn rendering(xs: &mut Xstate) -> String {
@@ -166,6 +172,14 @@ fn apply(xs: &mut Xstate, op: &Op) -> Result<String, String> {
             xs.set_recording_enabled(*on);
             "Ok".to_string()
         }
+        Op::Compile(src) => {
+            let r = guard(|| xs.compile(src))?;
+            xs::render_res(&r)
+        }
+        Op::Run => {
+            let r = guard(|| xs.run())?;
+            xs::render_res(&r)
+        }
     };
     Ok(format!("result: {}\n{}", r, rendering(xs)))
 }
@@ -201,7 +215,7 @@ pub fn case(ch: &mut Choices, ctx: &CaseCtx) -> CaseOut {
     let _ = guard(|| first.eval(SETUP));
     let _ = first.set_binary_input(xeh::bitstr::Bitstr::from(vec![1u8, 2, 3, 0xab, 0xcd]));
     let mut next_id = 1usize;
-    let mut states: Vec<St> = vec![St { xs: first, leader: None, id: 0, queue: VecDeque::new() }];
+    let mut states: Vec<St> = vec![St { xs: first, leader: None, id: 0, queue: VecDeque::new(), hist: Vec::new() }];
     let mut log: Vec<String> = vec![format!("state 0: {} ; input |01 02 03 ab cd|{}", SETUP, if with_d2 { " ; d2 plugin loaded" } else { "" })];
     let max_ops = if big { 150 } else { 40 };
     let nops = 2 + ch.below(max_ops);
@@ -209,18 +223,47 @@ pub fn case(ch: &mut Choices, ctx: &CaseCtx) -> CaseOut {
     let mut clone_of_clone = false;
     let mut d2_used = false;
     let mut fail: Option<(String, String)> = None;
-    'ops: for _ in 0..nops {
-        let i = ch.below(states.len());
+    // 1 history in 6 starts with a scripted opening on state 0: code is compiled but not yet run when the clone is
+    // taken (a late word still unresolved, a cursor read, a let), then the pending code runs; the random history follows
+    let mut forced: VecDeque<Option<Op>> = VecDeque::new(); // None = take a clone
+    if ch.chance(1, 6) {
+        let e = |s: &str| Some(Op::Eval(s.to_string()));
+        let c = |s: &str| Some(Op::Compile(s.to_string()));
+        let script: Vec<Option<Op>> = match ch.below(5) {
+            0 => vec![e("late lw : uselw lw 1 + ;"), e(": lw 5 ;"), c("uselw uselw +"), None, Some(Op::Run)],
+            1 => vec![e("late lw : uselw lw 1 + ;"), c("9 var lw uselw"), None, Some(Op::Run)],
+            2 => vec![c("b0 open-bitstr 12 bits close-bitstr |f| swap bitstr-append ! b1"), None, Some(Op::Run)],
+            3 => vec![c("[ 7 8 ] let [ la lb ] la lb + ! n0"), None, Some(Op::Run)],
+            _ => vec![e("late lw : uselw lw 1 + ;"), e(": lw 5 ;"), Some(Op::CompileStep("uselw".to_string(), 0, 0)), None, e("uselw")],
+        };
+        forced = script.into_iter().collect();
+    }
+    'ops: for _ in 0..nops + forced.len() {
+        let mut i = ch.below(states.len());
+        let mut forced_op: Option<Op> = None;
+        let mut forced_kind: Option<usize> = None;
+        if let Some(f) = forced.pop_front() {
+            i = 0;
+            match f {
+                None => forced_kind = Some(3),
+                Some(op) => {
+                    forced_kind = Some(0);
+                    forced_op = Some(op);
+                }
+            }
+        }
         let has_queue = !states[i].queue.is_empty();
         // ---- choose what happens to state i --------------------------------------------
-        let kind = if has_queue {
+        let kind = if let Some(k) = forced_kind {
+            k
+        } else if has_queue {
             if ch.chance(4, 5) {
                 100
             } else {
                 continue;
             }
         } else {
-            ch.weighted(&[14, 3, 2, 4, 1, if states.len() > 1 { 1 } else { 0 }, if states.len() > 1 { 2 } else { 0 }])
+            ch.weighted(&[14, 3, 2, 4, 1, if states.len() > 1 { 1 } else { 0 }, if states.len() > 1 { 2 } else { 0 }, 2, 2])
         };
         if kind == 100 {
             // catch up: apply queued operations and compare with what the original did
@@ -232,6 +275,7 @@ pub fn case(ch: &mut Choices, ctx: &CaseCtx) -> CaseOut {
                 };
                 let snaps: Vec<String> = states.iter_mut().map(|s| rendering(&mut s.xs)).collect();
                 log.push(format!("state {} catches up: {:?}", states[i].id, op));
+                states[i].hist.push(op.clone());
                 let got = match apply(&mut states[i].xs, &op) {
                     Ok(g) => g,
                     Err(pm) => {
@@ -246,6 +290,8 @@ pub fn case(ch: &mut Choices, ctx: &CaseCtx) -> CaseOut {
                         Op::CompileStep(..) => "compile+step",
                         Op::SetInput(_) => "set-input",
                         Op::Record(_) => "record",
+                        Op::Compile(_) => "compile",
+                        Op::Run => "run",
                     };
                     fail = Some((format!("determinism: a clone re-running the original's {} differs in {}", opname, section_of(&d)), format!("clone (state {}) vs original:\n{}", states[i].id, d)));
                     break 'ops;
@@ -274,7 +320,8 @@ pub fn case(ch: &mut Choices, ctx: &CaseCtx) -> CaseOut {
             }
             log.push(format!("state {} = clone of state {}", next_id, states[i].id));
             let lead = states[i].id;
-            states.push(St { xs: c, leader: Some(lead), id: next_id, queue: VecDeque::new() });
+            let h = states[i].hist.clone();
+            states.push(St { xs: c, leader: Some(lead), id: next_id, queue: VecDeque::new(), hist: h });
             next_id += 1;
             continue;
         }
@@ -299,6 +346,7 @@ pub fn case(ch: &mut Choices, ctx: &CaseCtx) -> CaseOut {
             let lead = states[j].id;
             states[i].leader = Some(lead);
             states[i].queue.clear();
+            states[i].hist = states[j].hist.clone();
             // a state restored from j must render exactly like j
             let (ri, rj) = (rendering(&mut states[i].xs), rendering(&mut states[j].xs));
             if ri != rj {
@@ -322,7 +370,10 @@ pub fn case(ch: &mut Choices, ctx: &CaseCtx) -> CaseOut {
         }
         // a free operation: the state stops following its original
         states[i].leader = None;
-        let op = match kind {
+        let op = if let Some(op) = forced_op {
+            op
+        } else {
+            match kind {
             0 => {
                 if with_d2 && ch.chance(1, 2) {
                     d2_used = true;
@@ -339,7 +390,10 @@ pub fn case(ch: &mut Choices, ctx: &CaseCtx) -> CaseOut {
                 let n = ch.below(6);
                 Op::SetInput(ch.bytes(n))
             }
+            7 => Op::Compile(POOL[ch.below(POOL.len())].to_string()),
+            8 => Op::Run,
             _ => Op::Record(ch.bool()),
+            }
         };
         let followers_alive = states.iter().any(|s| s.leader == Some(states[i].id));
         if followers_alive || states.len() > 1 {
@@ -351,6 +405,7 @@ pub fn case(ch: &mut Choices, ctx: &CaseCtx) -> CaseOut {
         }
         let snaps: Vec<String> = states.iter_mut().map(|s| rendering(&mut s.xs)).collect();
         log.push(format!("state {}: {:?}", states[i].id, op));
+        states[i].hist.push(op.clone());
         let got = match apply(&mut states[i].xs, &op) {
             Ok(g) => g,
             Err(pm) => {
@@ -374,6 +429,7 @@ pub fn case(ch: &mut Choices, ctx: &CaseCtx) -> CaseOut {
         'fin: for i in 0..states.len() {
             while let Some((op, want)) = states[i].queue.pop_front() {
                 log.push(format!("state {} catches up: {:?}", states[i].id, op));
+                states[i].hist.push(op.clone());
                 match apply(&mut states[i].xs, &op) {
                     Ok(got) => {
                         if got != want {
@@ -393,6 +449,30 @@ pub fn case(ch: &mut Choices, ctx: &CaseCtx) -> CaseOut {
                         break 'fin;
                     }
                 }
+            }
+        }
+    }
+    // Oracle 3 (the snapshot does not change the original either): one state's whole history is replayed on an
+    // interpreter that never had a clone; it must end in the same rendering
+    if fail.is_none() && !with_d2 && !states.is_empty() {
+        let k = ch.below(states.len());
+        let mut solo = xs::fresh();
+        solo.intercept_output(true).unwrap();
+        solo.set_insn_limit(Some(20_000)).unwrap();
+        let _ = guard(|| solo.eval(SETUP));
+        let _ = solo.set_binary_input(xeh::bitstr::Bitstr::from(vec![1u8, 2, 3, 0xab, 0xcd]));
+        let mut ok = true;
+        for op in &states[k].hist {
+            if apply(&mut solo, op).is_err() {
+                ok = false;
+                break;
+            }
+        }
+        if ok {
+            let (a, b) = (rendering(&mut states[k].xs), rendering(&mut solo));
+            if a != b {
+                let d = first_diff_line(&a, &b);
+                fail = Some((format!("clone-free control: a state with clones in its history differs in {} from the same history without any clone", section_of(&d)), format!("state {} vs an interpreter that replayed its {} operations without ever being cloned:\n{}", states[k].id, states[k].hist.len(), d)));
             }
         }
     }
